@@ -5,6 +5,8 @@ from __future__ import annotations
 
 import re
 
+import common
+
 from docsweep import iter_pars, shape_of
 from impl_pkg import PART_ORDER
 
@@ -456,4 +458,59 @@ def o_options(ctx):
                 if not (blank or copied):
                     out.append(("dup_changes_more", f"{ty}{list(addr)} differs outside merged positions"))
                     break
+    out.extend(o_dup_comments(ctx))
+    return out
+
+
+def o_dup_comments(ctx):
+    """duplicate_merged_cells changes only cells covered by a merged cell: a comment whose range
+    lies entirely before the first or entirely after the last merged cell of the main document
+    is returned identically under both settings"""
+    out = []
+    pkg = ctx.get("pkg")
+    if pkg is None or "word/document.xml" not in pkg.parts:
+        return out
+    root = pkg.parts["word/document.xml"]
+    w = root.nsmap.get("w")
+    if not w:
+        return out
+    q = lambda t: f"{{{w}}}{t}"  # noqa: E731
+    elems = list(root.iter())  # keeps the lxml proxies alive: ids stay valid
+    order = {id(e): i for i, e in enumerate(elems)}
+    first_m, last_m = None, None
+    for tc in root.iter(q("tc")):
+        pr = tc.find(q("tcPr"))
+        if pr is None:
+            continue
+        gs = pr.find(q("gridSpan"))
+        merged = pr.find(q("vMerge")) is not None or (gs is not None and (gs.get(q("val")) or "1") != "1")
+        if merged:
+            lo = order[id(tc)]
+            hi = max(order[id(x)] for x in tc.iter())
+            first_m = lo if first_m is None else min(first_m, lo)
+            last_m = hi if last_m is None else max(last_m, hi)
+    starts = {e.get(q("id")): order[id(e)] for e in root.iter(q("commentRangeStart"))}
+    ends = {e.get(q("id")): order[id(e)] for e in root.iter(q("commentRangeEnd"))}
+    part = pkg.parts.get("word/comments.xml")
+    if part is None:
+        return out
+    ids = [c.get(q("id")) for c in part if isinstance(c.tag, str)]
+    for html in (True, False):
+        a, b = ctx["per"].get((html, True)), ctx["per"].get((html, False))
+        if a is None or b is None or a.comments[0] != 0 or b.comments[0] != 0:
+            continue
+        if not a.comments[1] or not b.comments[1]:
+            continue
+        la, lb = a.comments[1][0], b.comments[1][0]
+        if len(la) != len(ids) or len(lb) != len(ids):
+            continue
+        for cid, ta, tb in zip(ids, la, lb):
+            if cid not in starts or cid not in ends or starts[cid] > ends[cid]:
+                continue
+            clear = first_m is None or ends[cid] < first_m or starts[cid] > last_m
+            if clear and ta != tb:
+                out.append(("dup_changes_more",
+                            f"comment {cid} (range outside every merged cell) differs between duplicate_merged_cells "
+                            f"settings (html={html}): {common.unS(ta[0])[:40]!r} vs {common.unS(tb[0])[:40]!r}"))
+                return out
     return out
